@@ -55,7 +55,7 @@ class SimProblem(Problem):
             # for arrays without infinite entries)
             for k_ in ("xl", "xu", "cl", "cu"):
                 v_ = g[k_]
-                if v_.size and np.all(np.isfinite(v_)) and np.all(v_ == np.round(v_)):
+                if v_.size and np.all(np.isfinite(v_)) and np.all(v_ == np.round(v_)) and np.all(np.abs(v_) < 2.0**62):
                     g[k_] = v_.astype(np.int64)
         self.given_dtypes = {k_: v_.dtype for k_, v_ in g.items()}
         if um.m > 0:
@@ -116,6 +116,9 @@ class SimProblem(Problem):
     # ---- bookkeeping common to all five callbacks
     def _enter(self, comp, x):
         self.total[comp] += 1
+        clk = getattr(self, "clock", None)
+        if clk is not None and clk.per_eval:
+            clk.t += clk.per_eval  # evaluating the user's functions takes (virtual) time
         if self.armed:
             self.count[comp] += 1
         k = self.count[comp]
